@@ -116,7 +116,12 @@ def main(argv=None):
     if not a.no_canaries:
         for cname, spec in canaries.items():
             if tier in spec.get("tiers", ("quick", "thorough")):
+                known = {c[0] for c in info["cases"]}
                 for case in spec["cases"]:
+                    if case not in known:
+                        # a case that this tier splits into chunks (name/s0, name/s1, ...): its first chunk
+                        alt = [k for k in known if k.startswith(case + "/")]
+                        case = sorted(alt)[0] if alt else case
                     canary_jobs.append((cname, case))
     tmo = {c[0]: c[1] for c in cases}
 
